@@ -12,12 +12,15 @@ KINDS = {
     "C08": {"shape"},
     "C09": {"locks", "panic", "deadlock"},
     "C10": {"coupling", "resting"},
+    # C07's write-frame oracle (concrun -writeframe): see writeframe_check, called by racecheck
+    "C07": {"writeframe"},
 }
 PROFILES = {
     "C03": ["point", "point", "delete"],
     "C04": ["cursor", "cursor", "mixed"],
     "C05": ["update"],
     "C06": ["delete", "cursor", "mixed"],
+    "C07": ["mixed", "delete", "update", "point", "cursor"],
     "C08": ["mixed", "delete"],
     "C09": ["mixed", "cursor", "point"],
     "C10": ["mixed", "point", "cursor"],
@@ -46,7 +49,7 @@ def load_corpus(pid):
                     props = l.split(":", 1)[1].split()
                 elif l and not l.startswith("#"):
                     lines.append(l)
-            if props is None or pid in props:
+            if props is None or pid is None or pid in props:
                 cur = []
                 for l in lines:
                     cur.append(l)
@@ -79,23 +82,23 @@ def parse_runs(text):
     return runs, dfs
 
 
-def run_concrun(bindir, scratch, name, cases, dfs_max=20000):
+def run_concrun(bindir, scratch, name, cases, dfs_max=20000, extra_args=()):
     f = scratch.path(name + ".cases")
     with open(f, "w") as fh:
         for c in cases:
             fh.write("\n".join(c) + "\n")
     with open(f) as fin:
-        r = subprocess.run([os.path.join(bindir, "concrun"), "-dfs-max", str(dfs_max)], stdin=fin,
+        r = subprocess.run([os.path.join(bindir, "concrun"), "-dfs-max", str(dfs_max)] + list(extra_args), stdin=fin,
                            stdout=subprocess.PIPE, stderr=subprocess.PIPE, text=True)
     runs, dfs = parse_runs(r.stdout)
     return runs, dfs, (r.returncode, r.stderr[-2000:])
 
 
-def run_parallel(bindir, scratch, name, cases, dfs_max=20000):
+def run_parallel(bindir, scratch, name, cases, dfs_max=20000, extra_args=()):
     shards = min(vlib.NCPU, max(1, len(cases) // 4))
     parts = [cases[i::shards] for i in range(shards)]
     with ThreadPoolExecutor(max_workers=shards) as ex:
-        futs = [ex.submit(run_concrun, bindir, scratch, "%s.%d" % (name, i), parts[i], dfs_max) for i in range(shards)]
+        futs = [ex.submit(run_concrun, bindir, scratch, "%s.%d" % (name, i), parts[i], dfs_max, extra_args) for i in range(shards)]
         res = [f.result() for f in futs]
     allruns, alldfs, errs = [], [], []
     for i, (runs, dfs, err) in enumerate(res):
@@ -248,6 +251,65 @@ def _check(pid, tier, sc, t0, sink=None):
     else:
         vlib.write_evidence(pid, tier, "proof", cov, time.time() - t0, nviol, assumptions)
     return rc
+
+
+def writeframe_check(pid, tier, sc, rng):
+    """C07, implementation side of the Lean theorem C07_write_frame: the catalogue and random
+    cases of the other concurrent checks run on the shadow copy with the write-frame oracle
+    (concrun -writeframe), once with scheduling points at Lock only and once with Unlock as a
+    scheduling point too (a write placed after an unlock then falls into a later step, in which
+    the mutex is no longer held). The engine options travel in the case (`opt` line), so a
+    replay file is self-contained. Returns dict(violations, stats, errs, build_error)."""
+    t0 = time.time()
+    bindir, err = build_shadow(sc)
+    if bindir is None:
+        return dict(violations=[], stats={}, errs=[], build_error=err)
+    ncases, nsched, dfs_lock, dfs_unlock = {"quick": (900, 12, 4000, 300), "thorough": (6000, 24, 20000, 4000)}[tier]
+    base = load_corpus(None) + genconc.catalogue() + genconc.scaled_catalogue(full=(tier == "thorough")) + \
+        genconc.tall_catalogue(sizes=((9, 13, 17) if tier == "quick" else (9, 13, 17, 27, 41))) + \
+        genconc.spine_cases(nsched=(2 if tier == "quick" else 8)) + gen_cases(pid, rng, ncases, nsched)
+    out = dict(violations=[], errs=[], build_error=None)
+    stats = dict(cases=0, runs=0, steps_checked=0, snapshots_diffed=0, nodes_compared=0, modes={}, types={})
+    seen = set()
+    known = vlib.load_known()
+    for mode, opts, dfs_max in (("lock", "writeframe", dfs_lock), ("lock+unlock", "writeframe yieldunlock", dfs_unlock)):
+        cases = [[c[0], "opt " + opts] + c[1:] for c in base]
+        runs, dfs, errs = run_parallel(bindir, sc, "wf_" + mode.replace("+", "_"), cases, dfs_max, extra_args=["-writeframe"])
+        out["errs"] += errs
+        steps = nodes = nruns = 0
+        for r in runs:
+            nruns += 1
+            for l in r["lines"]:
+                if l.startswith("# writeframe steps "):
+                    f = l.split()
+                    steps += int(f[3])
+                    nodes += int(f[5])
+            for tag, k, d in relevant(pid, r, known):
+                key = (k, d[:30])
+                if tag != "viol" or key in seen or len(out["violations"]) >= 3:
+                    continue
+                seen.add(key)
+                out["violations"].append(dict(property=pid, engine="conc", kind=k, observed=d, yield_points=mode, case=replay_case(r),
+                                              event_log=r["lines"][:400], seed=vlib.SEED, how="bin/check --replay <this file>"))
+        for l in dfs:
+            f = l.split()
+            if "wfsteps" in f:        # counters over the runs of the dfs case that were not emitted
+                nruns += int(f[f.index("quiet") + 1])
+                steps += int(f[f.index("wfsteps") + 1])
+                nodes += int(f[f.index("wfnodes") + 1])
+        stats["modes"][mode] = dict(cases=len(cases), runs=nruns, steps_checked=steps, nodes_compared=nodes,
+                                    dfs_cases=len(dfs), dfs_exhaustive=sum(1 for l in dfs if "exhaustive true" in l), dfs_max=dfs_max)
+        stats["cases"] += len(cases)
+        stats["runs"] += nruns
+        stats["steps_checked"] += steps
+        stats["snapshots_diffed"] += steps    # one before/after pair of snapshots per step
+        stats["nodes_compared"] += nodes
+    for c in base:
+        ty = c[0].split()[1]
+        stats["types"][ty] = stats["types"].get(ty, 0) + 1
+    stats["wall_s"] = round(time.time() - t0, 2)
+    out["stats"] = stats
+    return out
 
 
 def model_tie(pid, sc, runs):
